@@ -212,6 +212,9 @@ func checkFloor(prop, tier string, total *Summary) string {
 // witnessClass names the feature set of a (shrunk) witness so that a known
 // finding does not mask a different failure of the same rule.
 func witnessClass(c *Case, rule string) string {
+	if rule == "C13.foreign-cycle-misclassified" {
+		return "user-error-wraps-foreign-cycle-rejection"
+	}
 	if rule == "C13.rootcause-nested-dig-error" {
 		// the rule itself pins the input (a user function's error wrapping another container's dig error) and
 		// the observed wrong answer (the foreign error's root cause): one class
